@@ -27,7 +27,9 @@ from pathlib import Path
 from harness import coq
 from harness.common import VERIF, parse_json_violations, rng_for, run_cli, scratch_dir
 from harness.framework import Check
-from harness.props import c11_logic, c11_mut, c11_pool, c11_stream
+import os
+
+from harness.props import c11_carriers, c11_logic, c11_mut, c11_output, c11_pool, c11_stream
 
 PROP = "C11"
 FLAG = "q_value_error_escapes"
@@ -40,6 +42,7 @@ COMMANDS = ["nesting", "srp", "magic-numbers", "dry", "improper-logging", "print
             "unwrap-abuse", "clone-abuse", "blocking-async"]
 CLI_WALL_LIMIT = 150.0
 CORPUS = VERIF / "corpus" / PROP
+WORKERS = max(1, int(os.environ.get("C11_WORKERS", "4")))      # worker processes of the in-process stream; the CLI part uses half as many threads
 
 
 def msg_slug(msg) -> str:
@@ -57,6 +60,11 @@ def fail_key(rule, exc_type, msg, cls) -> str:
     if exc_type == "RecursionError" or (exc_type == "MemoryError" and msg_slug(msg) in ("parser-stack-overflowed", "no-message")):
         cls = "nesting-blowup"
     return f"fail:{rule}:{exc_type}:{msg_slug(msg)}:{cls}"
+
+
+def output_key(op: dict, cls: str) -> str:
+    words = re.findall(r"[A-Za-z_]+", re.sub(r"'[^']*'|\"[^\"]*\"|`[^`]*`", "", op["problem"]).lower())[:5]
+    return f"output:{op['fmt']}:{'-'.join(words)}:{cls}"
 
 
 HANG_FACTOR = 100.0     # a run counts as a hang when it needs this many times the CPU time of the reference workload (scaled by size)
@@ -185,6 +193,38 @@ def state_leak_and_shebang_sweeps(thin: bool):
     return out
 
 
+def carrier_cases(quick: bool):
+    """deterministic: isolation of the STATEFUL per-file analyzers of the cross-file rules.  A carrier (healthy, carries stringly-typed /
+    duplicate-code / duplicate-constant material, below the cross-file threshold on its own) is linted directly before and directly
+    after each kind of damaged file (truncated, open string, bracket dropped / extra, NUL, undecodable, empty, whitespace) of every
+    language; its findings must equal the run without the damaged file.  `material:*` cases show the carriers are live: next to a
+    byte-identical copy every cross-file family fires."""
+    out = []
+
+    def mk(cid, files, config, meta):
+        layout = [[n, base64.b64encode(b).decode(), bool(off)] for n, b, off in files]
+        data = b"".join(b for _, b, off in files if off)
+        return {"id": cid, "name": "layout", "data": data, "config": config, "mode": "files", "pos": 0, "layout": layout,
+                "weight": 1.0 + sum(len(b) for _, b, _ in files) / 20000, "meta": meta}
+
+    for cid, files, m in c11_carriers.pair_layouts(quick):
+        meta = {"cls": "carrier-neighbour", "kind": f"{m['kind']}:{m['order']}:carrier-{m['carrier_lang']}", "lang": m["lang"]}
+        out.append(mk(cid, files, "dry", meta))
+        if not quick and m["order"] == "after":
+            out.append(mk(cid + ":default", files, "default", meta))
+    for lang in c11_carriers.CARRIER_LANGS:
+        n, t = c11_carriers.carrier(lang, 90)
+        files = [(n, t.encode(), False), ("copy_" + n, t.encode(), False)]
+        out.append(mk(f"material:{lang}", files, "dry", {"cls": "carrier-material", "kind": "carrier-next-to-its-copy", "lang": lang}))
+    return out
+
+
+MATERIAL = {"py": ["dry.duplicate-code", "dry.duplicate-code:constant", "stringly-typed.limited-values", "stringly-typed.repeated-validation",
+                   "stringly-typed.scattered-comparison"],
+            "ts": ["dry.duplicate-code", "dry.duplicate-code:constant", "stringly-typed.limited-values", "stringly-typed.scattered-comparison"]}
+MATERIAL["js"] = MATERIAL["ts"]
+
+
 def gen_stream_cases(seed: int, n: int):
     out = []
     for i in range(n):
@@ -195,6 +235,8 @@ def gen_stream_cases(seed: int, n: int):
 
 
 def replay_payload(case) -> dict:
+    if case.get("layout") is not None:
+        return {"part": "layout", "id": case["id"], "config": case["config"], **case["meta"], "layout": case["layout"]}
     return {"part": "stream", "id": case["id"], "name": case["name"], "config": case["config"], "mode": case["mode"], "pos": case["pos"],
             **case["meta"], "bytes": len(case["data"]), "sha256": hashlib.sha256(case["data"]).hexdigest(),
             "data_b64": base64.b64encode(case["data"]).decode() if len(case["data"]) <= 200000 else "(too large: regenerate from seed and id)"}
@@ -253,6 +295,19 @@ def judge_stream(chk: Check, case, res, healthy_rules):
         problems += 1
         chk.violation({"reason": "the violations reported for the healthy files differ from the run without the offending file",
                        "missing": res.get("sib_missing"), "extra": res.get("sib_extra"), **info})
+    for op in res.get("output_problems") or []:
+        # the output stage is outside the per-rule safety net: an exception there is exit 2 and loses every result of the run
+        known_or_violation(output_key(op, cls), "output stage (--format " + op["fmt"] + "): " + op["problem"], {"output_problem": op})
+    if case.get("layout") is not None:
+        if res.get("baseline_problem"):
+            problems += 1
+            chk.violation({"reason": "the run on the healthy files of a layout alone crashed or had a swallowed failure", "detail": res["baseline_problem"], **info})
+        if cls == "carrier-neighbour" and res.get("base_cross"):
+            chk.broken.append(f"Generator:carrier of {case['id']} has cross-file findings on its own ({res['base_cross']}): it is not below the threshold")
+        if cls == "carrier-material":
+            lacking = [f for f in MATERIAL[m["lang"]] if f not in (res.get("cross_families") or [])]
+            if lacking:
+                chk.broken.append(f"Generator:carrier material is dead for {m['lang']}: next to its copy no finding of {lacking}")
     limit = res.get("cpu_limit")
     if res.get("cpu") is not None and limit and res["cpu"] > limit * NOTE_FACTOR / HANG_FACTOR:
         timed = sorted(res.get("slow_rules") or [], key=lambda x: -x[1])
@@ -354,7 +409,7 @@ def cli_part(chk: Check, seed: int, stream_cases, n_cli: int, sd: Path):
         pos = r.randrange(len(names) + 1)
         jobs.append((d, args + ((names[:pos] + [c["name"]] + names[pos:]) if explicit else ["."]), sd / f"cli-fl-{i}", wall_limit))
         metas.append(("case", key, c))
-    with ThreadPoolExecutor(max_workers=6) as ex:
+    with ThreadPoolExecutor(max_workers=max(2, WORKERS // 2)) as ex:
         outs = list(ex.map(_cli_one, jobs))
     bases = {}
     for (kind, key, _), o in zip(metas, outs):
@@ -407,6 +462,100 @@ def cli_part(chk: Check, seed: int, stream_cases, n_cli: int, sd: Path):
             chk.violation({"reason": "CLI: the violations reported for the healthy files differ from the run without the offending file",
                            "missing": [v for v in want if v not in got][:5], "extra": [v for v in got if v not in want][:5], **info})
     chk.extra_cov["cli_runs"] = len(jobs)
+
+
+def _by_file(vs, healthy):
+    """violations of the healthy files as [rule, file name, line, column, message], sorted"""
+    return sorted(([v[0], Path(str(v[1])).name, v[2], v[3], v[4]] for v in vs if Path(str(v[1])).name in healthy), key=json.dumps)
+
+
+def cli_sequence_part(chk: Check, sd: Path, commands, quick: bool = False):
+    """every linter command x every --format on ONE run holding, per language, carrier / damaged / carrier / damaged ... (every damage kind
+    with a healthy carrier of cross-file material directly before and directly after it; duplicate-code enabled by .thailint.yaml):
+    exit status in {0,1}, a well-formed document, and the healthy files' violations equal to the run without the damaged files - in
+    every format (the sarif and text documents must carry the same findings as the json one)."""
+    files = c11_carriers.sequence_layout()
+    healthy = {n for n, _, off in files if not off}
+    cfg = "dry:\n  enabled: true\n  min_duplicate_lines: 3\n"
+    (sd / "home").mkdir(exist_ok=True)
+
+    def mkdir(tag, with_offenders):
+        d = sd / tag
+        d.mkdir()
+        (d / ".thailint.yaml").write_text(cfg)
+        names = []
+        for n, b, off in files:
+            if off and not with_offenders:
+                continue
+            (d / n).write_bytes(b)
+            names.append(n)
+        return d, names
+
+    base_d, base_names = mkdir("seq-base", False)
+    case_d, case_names = mkdir("seq-case", True)
+    ref = _cli_one((base_d, ["nesting", "--format", "json"] + base_names, sd / "seq-fl-ref", 900))
+    wall_limit = max(CLI_WALL_LIMIT, HANG_FACTOR * ref["wall"])
+    jobs, metas = [], []
+    for ci, cmd in enumerate(commands):
+        jobs.append((base_d, [cmd, "--format", "json"] + base_names, sd / f"seq-fl-base-{cmd}", wall_limit))
+        metas.append((cmd, "json", True))
+        # quick tier: json (isolation) and sarif (the format that computes with the fields) for every command, text for every fourth
+        for fmt in (["json", "sarif"] + (["text"] if not quick or ci % 4 == 0 else [])):
+            jobs.append((case_d, [cmd, "--format", fmt] + case_names, sd / f"seq-fl-{cmd}-{fmt}", wall_limit))
+            metas.append((cmd, fmt, False))
+    with ThreadPoolExecutor(max_workers=max(2, WORKERS // 2)) as ex:
+        outs = list(ex.map(_cli_one, jobs))
+    bases = {}
+    for (cmd, fmt, is_base), o in zip(metas, outs):
+        if is_base:
+            probs, vs = c11_output.check_json(o["stdout"])
+            if o["rc"] not in (0, 1) or o["failures"] or vs is None or probs:
+                chk.violation({"reason": "CLI sequence: the run on the healthy carriers alone failed", "command": cmd, "rc": o["rc"], "problems": probs,
+                               "stderr": _strip_ansi(o["stderr"])[-1200:], "failures": o["failures"]})
+            else:
+                bases[cmd] = _by_file(vs, healthy)
+    for (cmd, fmt, is_base), o in zip(metas, outs):
+        if is_base:
+            continue
+        chk.count(["cli-sequence", cmd, fmt], True)
+        chk.dist("cli-sequence:format:" + fmt)
+        info = {"case": {"part": "cli-sequence", "command": cmd, "format": fmt, "files_in_order": case_names,
+                         "note": "files: harness/props/c11_carriers.sequence_layout() (deterministic)"}}
+
+        def kv(k, reason, extra=None, info=info):
+            payload = {"reason": reason, "key": k, **(extra or {}), **info}
+            if k in chk.known["known"]:
+                chk.known_seen.setdefault(k, payload)
+            else:
+                chk.violation(payload)
+
+        err = _strip_ansi(o["stderr"])
+        if o["rc"] == 124:
+            kv("hang:carrier-sequence", f"thailint {cmd} --format {fmt} did not finish within {wall_limit:.0f} s on the carrier / damaged file sequence")
+            continue
+        if o["rc"] not in (0, 1):
+            m = re.findall(r"^\s*([A-Za-z_][A-Za-z0-9_.]*(?:Error|Exception|Interrupt|Exit))\s*:", err, re.M)
+            first = (re.findall(r"Error during linting: .*", err) or [""])[0]
+            chk.violation({"reason": f"thailint {cmd} --format {fmt} exited {o['rc']} on the carrier / damaged file sequence (allowed: 0, 1): {first[:200]}",
+                           "exception": m[-1].split(".")[-1] if m else "?", "stderr_tail": err[-1500:], **info})
+            continue
+        for f in o["failures"]:
+            rule = f.get("rule") if f.get("rule") not in (None, "None") else f.get("where")
+            kv(fail_key(rule, f.get("exc_type"), f.get("exc_msg"), "carrier-sequence"), "a rule failed internally during a CLI run (hook H1)", {"failure": f})
+        probs, vs = c11_output.CHECKERS[fmt](o["stdout"])
+        for pr in probs[:4]:
+            kv(output_key({"fmt": fmt, "problem": pr}, "carrier-sequence"), f"thailint {cmd} --format {fmt}: malformed document: {pr}")
+        if vs is None or cmd not in bases:
+            continue
+        if fmt == "text":
+            got = sorted(([v[0], Path(v[1].split(":")[0]).name] for v in vs if Path(v[1].split(":")[0]).name in healthy), key=json.dumps)
+            want = sorted(([v[0], v[1]] for v in bases[cmd]), key=json.dumps)
+        else:
+            got, want = _by_file(vs, healthy), bases[cmd]
+        if got != want:
+            chk.violation({"reason": f"CLI sequence ({cmd} --format {fmt}): the violations reported for the healthy carriers differ from the run without the damaged files",
+                           "missing": [v for v in want if v not in got][:5], "extra": [v for v in got if v not in want][:5], **info})
+    chk.extra_cov["cli_sequence_runs"] = len(jobs)
 
 
 # ------------------------------------------------------------------ logic part
@@ -555,6 +704,43 @@ def judge_logic(chk: Check, lines, tags, stream_results, sd: Path):
                                        "Orchestrator on injected partial rules and no candidate quirk vector matches all scenarios"})
 
 
+# ------------------------------------------------------------------ output stage against Model/ContainOut.v
+def output_logic_part(chk: Check, seed: int, n: int, sd: Path, only=None):
+    """Violation objects whose fields carry values of arbitrary Python types (int / None / str / enum member) through the real
+    format_violations inside the real run_linter_command; exit status (and the SARIF regions) against Model/ContainOut.v"""
+    cases = [only] if only is not None else (c11_output.sweep_out_cases() + [c11_output.gen_out_case(rng_for(seed, PROP, "out", i), i) for i in range(n)])
+    obs = [c11_output.run_out_case(c) for c in cases]
+    lines = [c11_output.coq_out_case(c, o) for c, o in zip(cases, obs)]
+    shards = ["\n".join(f"Eval vm_compute in ({l})." for l in lines[k:k + 60]) for k in range(0, len(lines), 60)]
+    try:
+        outs = coq.eval_shards(sd / "coq-out", c11_output.OUT_HEADER, shards)
+    except RuntimeError as e:
+        chk.broken.append(f"Model:evaluation of the output-stage model failed ({str(e)[:400]})")
+        return
+    flat = [o for sh in outs for o in sh]
+    if len(flat) != len(cases):
+        chk.broken.append(f"Model:expected {len(cases)} output-stage results, got {len(flat)}")
+        return
+    for c, o, v in zip(cases, obs, flat):
+        agree, exit_ok, typed, regions_ok = bool(v[0]), bool(v[1]), bool(v[2]), bool(v[3])
+        chk.traces_validated += 1
+        chk.count(["out", c["fmt"], c["violations"]], not typed)
+        chk.dist("out:format:" + c["fmt"])
+        chk.dist("out:" + ("well-typed" if typed else "some-field-of-another-type") + ":" + ("exit-0-1" if exit_ok else "exit-error"))
+        chk.sample({"part": "output stage", "format": c["fmt"], "violations": c["violations"], "impl": o}, 4)
+        info = {"case": {"part": "out", "case": c}, "impl": o}
+        if typed and not exit_ok:
+            chk.violation({"reason": f"output stage: --format {c['fmt']} ended with exit status {o['exit']!r} on violations whose fields all have their annotated "
+                                     f"types ({o.get('error')})", **info})
+        elif not agree:
+            chk.violation({"reason": f"output stage: exit status {o['exit']!r} of --format {c['fmt']} differs from Model/ContainOut.v (the formatter uses a field "
+                                     "differently from Gen.output_uses as interpreted by op_ok)", **info})
+        elif not regions_ok:
+            chk.violation({"reason": "output stage: the (startLine, startColumn) pairs of the SARIF document differ from Model.sarif_region", **info})
+        elif o.get("error") and str(o["error"]).startswith("unparsable"):
+            chk.violation({"reason": "output stage: " + o["error"], **info})
+
+
 # ------------------------------------------------------------------ entry point
 def run(tier: str, seed: int, replay: str | None = None) -> int:
     chk = Check(PROP, tier, seed)
@@ -585,7 +771,7 @@ def run(tier: str, seed: int, replay: str | None = None) -> int:
     ]
     from harness.common import install_failure_tap
     install_failure_tap()      # keeps the orchestrator's logger.exception output of the stub scenarios off stderr
-    chk.build(["theories/Props/C11.v"], ["ContainGen", "CensusGen"], known_v=["theories/Props/C11Known.v"])
+    chk.build(["theories/Props/C11.v"], ["ContainGen", "CensusGen", "ContainOutGen"], known_v=["theories/Props/C11Known.v"])
     phases = {"build": round(time.time() - chk.t0, 1)}
     scale = chk.budget_scale()
     quick = tier == "quick"
@@ -599,12 +785,12 @@ def run(tier: str, seed: int, replay: str | None = None) -> int:
             return _replay(chk, replay, seed, sd)
         grid, gnotes = grid_cases(seed, 1 if quick else 6)
         chk.notes.extend(gnotes)
-        stream_cases = (corpus_cases() + sweep_cases() + literal_and_comment_sweeps(seed, quick) + state_leak_and_shebang_sweeps(quick) + grid
-                        + gen_stream_cases(seed, n_stream))
+        stream_cases = (corpus_cases() + sweep_cases() + literal_and_comment_sweeps(seed, quick) + state_leak_and_shebang_sweeps(quick)
+                        + carrier_cases(quick) + grid + gen_stream_cases(seed, n_stream))
         results, baselines = {}, {}
 
         def go():
-            r, b = c11_stream.run_stream([{k: v for k, v in c.items() if k != "meta"} for c in stream_cases], sd / "stream", 8)
+            r, b = c11_stream.run_stream([{k: v for k, v in c.items() if k != "meta"} for c in stream_cases], sd / "stream", WORKERS)
             results.update(r)
             baselines.update(b)
 
@@ -616,10 +802,14 @@ def run(tier: str, seed: int, replay: str | None = None) -> int:
         t2 = time.time()
         cli_part(chk, seed, stream_cases, n_cli, sd)
         phases["cli"] = round(time.time() - t2, 1)
+        t2 = time.time()
+        cli_sequence_part(chk, sd, COMMANDS, quick)
+        phases["cli_sequence"] = round(time.time() - t2, 1)
         th.join()
         phases["stream_total"] = round(time.time() - t1, 1)
         t3 = time.time()
         judge_logic(chk, lines, tags, results, sd)      # first: a failing input of the modelled logic makes the better replay
+        output_logic_part(chk, seed, int((150 if quick else 3000) * scale), sd)
         _judge_stream_all(chk, stream_cases, results, baselines)
         phases["coq_eval"] = round(time.time() - t3, 1)
         phases["stream_cpu_s"] = round(sum((r.get("cpu") or 0) for r in results.values()), 1)
@@ -648,7 +838,7 @@ def _judge_stream_all(chk, stream_cases, results, baselines):
     for c in stream_cases:
         res = results.get(c["id"])
         nontrivial = judge_stream(chk, c, res, healthy)
-        chk.count(["stream", c["name"], hashlib.sha256(c["data"]).hexdigest()], nontrivial)
+        chk.count(["layout", c["id"]] if c.get("layout") is not None else ["stream", c["name"], hashlib.sha256(c["data"]).hexdigest()], nontrivial)
         chk.dist("stream:class:" + c["meta"]["cls"])
         chk.dist("stream:lang:" + c["meta"]["lang"])
         chk.dist("stream:config:" + c["config"] + "/" + c["mode"])
@@ -674,6 +864,11 @@ def _replay(chk: Check, replay: str, seed: int, sd: Path) -> int:
     elif part in ("stream", "cli"):
         off = {"cls": case["cls"], "kind": case["kind"], "lang": case["lang"], "name": case["name"], "data": base64.b64decode(case["data_b64"])}
         sc = [_mk_case(case.get("id", "replay"), off, case.get("config", "default"), case.get("mode", "files"), case.get("pos", 3))]
+    elif part == "layout":
+        files = [(n, base64.b64decode(b), off) for n, b, off in case["layout"]]
+        sc = [{"id": case.get("id", "replay"), "name": "layout", "data": b"".join(b for _, b, off in files if off), "config": case.get("config", "dry"),
+               "mode": "files", "pos": 0, "layout": case["layout"], "weight": 1.0,
+               "meta": {"cls": case["cls"], "kind": case["kind"], "lang": case["lang"]}}]
     else:
         sc = []
     if sc:
@@ -681,6 +876,8 @@ def _replay(chk: Check, replay: str, seed: int, sd: Path) -> int:
         _judge_stream_all(chk, sc, r, b)
         if part == "cli":
             cli_part(chk, seed, [dict(sc[0], id="corpus:replay")], 1, sd)
+    elif part == "out":
+        output_logic_part(chk, seed, 0, sd, only=case["case"])
     elif part in ("stub", "detect"):
         lines, tags = logic_part(chk, seed, 0, 0, [], sd, only=case["case"])
         judge_logic(chk, lines, tags, {}, sd)
